@@ -84,7 +84,7 @@ Lemma assigned_step r s e s' p :
     | _, _ => assigned (ps s p)
     end.
 Proof.
-  destruct e as [w|p0|p0 v|p0]; cbn.
+  destruct e as [w|p0|p0 v|p0|p0]; cbn.
   - destruct (infl s); intros H; inversion H; reflexivity.
   - destruct (infl s) as [[[l w] pend]|]; [|discriminate].
     destruct (mem p0 pend && negb (has_ver (cur (ps s p0)) (busy (ps s p0)))); [|discriminate].
@@ -96,6 +96,8 @@ Proof.
   - destruct (locked s || (r && has_ver (cur (ps s p0)) (busy (ps s p0)))); [discriminate|].
     intros H; inversion H; subst; cbn. unfold updp. destruct (N.eqb p p0) eqn:E; [|reflexivity].
     apply N.eqb_eq in E. subst. reflexivity.
+  - destruct (locked s || (r && has_ver (cur (ps s p0)) (busy (ps s p0)))); [discriminate|].
+    intros H; inversion H; subst. reflexivity.
 Qed.
 
 (* ---- exactly one version, for the code before and after the repair ---- *)
@@ -126,7 +128,7 @@ Qed.
 
 Lemma step_one r s e s' : One s -> step r s e = Some s' -> One s'.
 Proof.
-  intros [P C I] H. destruct e as [w|p0|p0 v|p0]; cbn in H.
+  intros [P C I] H. destruct e as [w|p0|p0 v|p0|p0]; cbn in H.
   - (* Take *)
     destruct (infl s) eqn:EI; [discriminate|]. inversion H; subst; clear H. constructor; cbn.
     + intros p. destruct (P p) as [A B D E]. constructor; cbn; auto.
@@ -184,6 +186,9 @@ Proof.
     + intros p k Hp Hk. destruct (C p k Hp Hk) as [L|R]; [left|right; exact R].
       destruct (N.eq_dec p p0) as [->|Hne]; [rewrite updp_same; exact L|rewrite updp_other by exact Hne; exact L].
     + exact I.
+  - (* ReloadRefused *)
+    destruct (locked s || (r && has_ver (cur (ps s p0)) (busy (ps s p0)))); [discriminate|].
+    inversion H; subst. constructor; auto.
 Qed.
 
 Lemma run_one r es s s' : One s -> run r s es = Some s' -> One s'.
@@ -242,7 +247,7 @@ Qed.
 
 Lemma step_ord s e s' : (forall p, OrdP (ps s p)) -> step true s e = Some s' -> forall p, OrdP (ps s' p).
 Proof.
-  intros O H p. destruct e as [w|p0|p0 v|p0]; cbn in H.
+  intros O H p. destruct e as [w|p0|p0 v|p0|p0]; cbn in H.
   - destruct (infl s); inversion H; subst. apply O.
   - destruct (infl s) as [[[l w] pend]|]; [|discriminate].
     destruct (mem p0 pend && negb (has_ver (cur (ps s p0)) (busy (ps s p0)))) eqn:G; [|discriminate].
@@ -264,6 +269,8 @@ Proof.
     inversion H; subst; clear H. cbn. destruct (N.eq_dec p p0) as [->|Hne]; [|rewrite updp_other by exact Hne; apply O].
     rewrite updp_same. pose proof (ord_busy_nil _ (O p0) G) as Bn. destruct (O p0) as [A B C].
     constructor; cbn; auto. rewrite Bn. intros ? [].
+  - destruct (locked s || has_ver (cur (ps s p0)) (busy (ps s p0))); cbn in H; [discriminate|].
+    inversion H; subst. apply O.
 Qed.
 
 Lemma run_ord es s s' : (forall p, OrdP (ps s p)) -> run true s es = Some s' -> forall p, OrdP (ps s' p).
